@@ -226,6 +226,7 @@ type c36Run struct {
 	closed      []*c36Chan
 	pending     []uint32 // Go ids of local opens not yet answered
 	pendingData map[uint32][]byte
+	abandoned   []chan c36OpenRes
 	nextPID     uint32
 	usedPID     []uint32
 	stats       c36Stats
@@ -812,6 +813,17 @@ func runC36(p *c36Plan) (string, c36Stats, error) {
 			what = "close for a " + kind + " channel"
 			if c != nil {
 				r.markClosed(c)
+			}
+			if kind == "pending" {
+				// closing a channel whose open is still unanswered ends that open
+				for i, g := range r.pending {
+					if g == id {
+						r.pending = append(r.pending[:i], r.pending[i+1:]...)
+						r.abandoned = append(r.abandoned, r.lopenRes[i])
+						r.lopenRes = append(r.lopenRes[:i], r.lopenRes[i+1:]...)
+						break
+					}
+				}
 			}
 		case "chreq":
 			id, c, kind := r.resolve(st)
